@@ -254,7 +254,10 @@ func c02MemCommit(height uint64, who lntypes.ChannelParty, shapes int) *c02Mem {
 		dustLimit:      btcutil.Amount(vI64("cmDustLimit")),
 	}
 	m := &c02Mem{c: c}
-	shape := vChoice("htlcShape", shapes)
+	shape := -shapes // shapes < 0: pinned by the caller
+	if shapes > 0 {
+		shape = vChoice("htlcShape", shapes)
+	}
 	nOut, nIn := shape&1, shape>>1&1
 	if shape == 4 {
 		nOut, nIn = 2, 2
@@ -382,20 +385,25 @@ func c02HtlcOnDisk(h *chanstate.HTLC, pd *paymentDescriptor, incoming bool) bool
 // RevokeCurrentCommitment
 // ---------------------------------------------------------------------------
 
-func c02Revoke(htlcShapes int, maxLog int) {
+func c02Revoke(htlcShapes int, maxLog int, deep bool) {
 	c02Config()
 	h := vU64("height")
 	// Domain: h+2 does not wrap (commitment numbers are 48 bits: BOLT-3
 	// obscured commitment number; SetStateNumHint rejects larger ones).
 	vAssume(h < ^uint64(0)-1)
-	restored := vBool("restored")
+	// outcome class (complete case split): 0 = store accepts, 1 = store
+	// write fails, 2 = restored channel. Quick runs the two refusing classes
+	// on the largest shape only (the code before the store call is the same
+	// straight line for every class); thorough runs every class on every shape.
+	mode := vChoice("mode", 3)
+	restored := mode == 2
 	// every channel type without the taproot bit (musig nonces are outside)
 	ct := chanstate.ChannelType(vU64("chanType"))
 	vAssume(!ct.IsTaproot())
 	op := c02Outpoint()
 	chanID := c02RefChanID(op)
 
-	store := &c02Store{updFails: vBool("storeFails"), updFinal: map[uint64]bool{7: true}}
+	store := &c02Store{updFails: mode == 1, updFinal: map[uint64]bool{7: true}}
 	prod := &c02Producer{chain: 1}
 	st := &chanstate.OpenChannel{
 		ChanType:           ct,
@@ -412,7 +420,12 @@ func c02Revoke(htlcShapes int, maxLog int) {
 	// local chain: the commitment being revoked (h) and the one the peer just
 	// signed (h+1, added by ReceiveNewCommitment)
 	old := c02MemCommit(h, lntypes.Local, 1)
-	next := c02MemCommit(h+1, lntypes.Local, htlcShapes)
+	var next *c02Mem
+	if mode != 0 && !deep {
+		next = c02MemCommit(h+1, lntypes.Local, -3)
+	} else {
+		next = c02MemCommit(h+1, lntypes.Local, htlcShapes)
+	}
 	lch := newCommitmentChain()
 	lch.addCommitment(old.c)
 	lch.addCommitment(next.c)
@@ -429,9 +442,20 @@ func c02Revoke(htlcShapes int, maxLog int) {
 	// log indexes
 	remoteLog := newUpdateLog(vU64("remoteLogCounter"), vU64("remoteHtlcCounter"))
 	var entries []*paymentDescriptor
-	n := vChoice("nRemoteLog", maxLog+1)
+	n := maxLog
+	if mode == 0 || deep {
+		n = vChoice("nRemoteLog", maxLog+1)
+	}
+	kind := 0
 	for i := 0; i < n; i++ {
-		pd := c02LogEntry(vChoice("logKind", c02NumK), chanID, vU64("leLogIndex"))
+		if i == 0 || deep {
+			kind = vChoice("logKind", c02NumK)
+		} else {
+			// quick: the next entry is of the next kind (every kind occurs
+			// in every position; entries are converted independently)
+			kind = (kind + 1) % c02NumK
+		}
+		pd := c02LogEntry(kind, chanID, vU64("leLogIndex"))
 		if i > 0 {
 			vAssume(entries[i-1].LogIndex < pd.LogIndex)
 		}
@@ -529,5 +553,288 @@ func c02Revoke(htlcShapes int, maxLog int) {
 	}
 }
 
-func VerifC02Revoke()     { c02Revoke(4, 2) }
-func VerifC02RevokeDeep() { c02Revoke(5, 3) }
+func VerifC02Revoke()     { c02Revoke(4, 2, false) }
+func VerifC02RevokeDeep() { c02Revoke(5, 2, true) }
+
+// ---------------------------------------------------------------------------
+// ReceiveRevocation
+// ---------------------------------------------------------------------------
+
+// c02NativeKeys (native replay only): the real findOutputIndexesFromRemote
+// derives a key ring from the channel configs; give it real points.
+func c02NativeKeys(st *chanstate.OpenChannel) {
+	k := func(i byte) *btcec.PublicKey {
+		var s [32]byte
+		s[31] = i
+		_, pub := btcec.PrivKeyFromBytes(s[:])
+		return pub
+	}
+	for i, cfg := range []*chanstate.ChannelConfig{&st.LocalChanCfg, &st.RemoteChanCfg} {
+		b := byte(10 * (i + 1))
+		cfg.MultiSigKey.PubKey = k(b + 1)
+		cfg.RevocationBasePoint.PubKey = k(b + 2)
+		cfg.PaymentBasePoint.PubKey = k(b + 3)
+		cfg.DelayBasePoint.PubKey = k(b + 4)
+		cfg.HtlcBasePoint.PubKey = k(b + 5)
+	}
+}
+
+// c02PoolPoint: pairwise distinct points that are not the point of any secret
+// used here (symbolically y = 2 while c02PointRepl has y = 1; natively real
+// points of small scalars).
+func c02PoolPoint(i byte) *btcec.PublicKey {
+	if vNative() {
+		var s [32]byte
+		s[31] = i + 1
+		return input.ComputeCommitmentPoint(s[:])
+	}
+	var x, y btcec.FieldVal
+	x.SetInt(uint16(i) + 1)
+	y.SetInt(2)
+	return btcec.NewPublicKey(&x, &y)
+}
+
+var c02ChanTypes = [...]chanstate.ChannelType{
+	chanstate.SingleFunderBit,
+	chanstate.SingleFunderTweaklessBit,
+	chanstate.SingleFunderTweaklessBit | chanstate.AnchorOutputsBit | chanstate.ZeroHtlcTxFeeBit,
+	chanstate.SingleFunderTweaklessBit | chanstate.AnchorOutputsBit | chanstate.ZeroHtlcTxFeeBit | chanstate.LeaseExpirationBit,
+}
+
+type c02Heights struct{ addL, addR, rmvL, rmvR uint64 }
+
+func c02SymHeights(pd *paymentDescriptor) {
+	pd.addCommitHeights = lntypes.Dual[uint64]{Local: vU64("leAddLocal"), Remote: vU64("leAddRemote")}
+	if pd.EntryType != Add {
+		pd.removeCommitHeights = lntypes.Dual[uint64]{Local: vU64("leRmvLocal"), Remote: vU64("leRmvRemote")}
+	}
+	if pd.EntryType == FeeUpdate {
+		// a fee update is added and removed at the same height
+		// (paymentDescriptor.setCommitHeight)
+		pd.removeCommitHeights = pd.addCommitHeights
+	}
+}
+
+// c02Recv: scenario = which entries the two update logs hold. Log indexes,
+// add/remove heights and payloads are symbolic; HTLC ids are the concrete
+// 0,1 (they only name parents). Every settle/fail has its parent Add in the
+// other log and no Add has two removals (the representation invariant of the
+// logs; compactLogs dereferences the parent).
+//
+//	0: both logs empty
+//	1: remote [Add a0]
+//	2: remote [Add a0]           local [Settle|Fail|Malformed of a0]
+//	3: remote [Add a0, Add a1]   local [Fail of a1]
+//	4: remote [Settle of b0]     local [Add b0]
+//	5: remote [Add a0, Fail of b0]  local [Add b0, FeeUpdate]
+//	6: remote [FeeUpdate]        local [FeeUpdate]
+func c02Recv(scenarios int) {
+	c02Config()
+	r := vU64("remoteTailHeight")
+	l := vU64("localTailHeight")
+	// Domain: r+1 does not wrap (48-bit commitment numbers).
+	vAssume(r < ^uint64(0))
+	ct := c02ChanTypes[vChoice("chanType", len(c02ChanTypes))]
+	op := c02Outpoint()
+	chanID := c02RefChanID(op)
+	scid := lnwire.NewShortChanIDFromInt(vU64("scid"))
+
+	// outcome class: 0 = everything accepted, 1 = shachain store rejects the
+	// secret, 2 = secret does not match the current point, 3 = channel store
+	// write fails, 4 = no pending commitment stored, 5 = restored channel
+	mode := vChoice("mode", 6)
+
+	store := &c02Store{advFails: mode == 3, hasDiff: mode != 4}
+	store.newRemote = chanstate.ChannelCommitment{
+		CommitHeight: r + 1,
+		CommitTx:     &wire.MsgTx{Version: 2},
+		Htlcs:        []chanstate.HTLC{{HtlcIndex: vU64("newRemoteHtlcIndex"), Amt: lnwire.MilliSatoshi(vU64("newRemoteHtlcAmt"))}},
+	}
+	revStore := &c02RevStore{fails: mode == 1}
+	secret := *c02Sec(2, r)
+	curPt, nextPt, msgPt := c02Point(secret[:]), c02PoolPoint(0), c02PoolPoint(1)
+	st := &chanstate.OpenChannel{
+		ChanType:                ct,
+		FundingOutpoint:         op,
+		ShortChannelID:          scid,
+		RevocationProducer:      &c02Producer{chain: 1},
+		RevocationStore:         revStore,
+		RemoteCurrentRevocation: curPt,
+		RemoteNextRevocation:    nextPt,
+		Db:                      store,
+	}
+	if mode == 5 {
+		st.SetChannelStatusForStore(chanstate.ChanStatusRestored)
+	}
+	st.LocalCommitment.CommitHeight = l
+	st.RemoteCommitment = chanstate.ChannelCommitment{CommitHeight: r, CommitTx: &wire.MsgTx{Version: 2}}
+	if vNative() {
+		c02NativeKeys(st)
+	}
+
+	localTailLocalIdx, remoteTipLocalIdx := vU64("localTailLocalLogIndex"), vU64("remoteTipLocalLogIndex")
+	lch := newCommitmentChain()
+	lch.addCommitment(&commitment{height: l, whoseCommit: lntypes.Local,
+		messageIndices: lntypes.Dual[uint64]{Local: localTailLocalIdx, Remote: vU64("localTailRemoteLogIndex")}})
+	rch := newCommitmentChain()
+	rTail := &commitment{height: r, whoseCommit: lntypes.Remote,
+		messageIndices: lntypes.Dual[uint64]{Local: vU64("remoteTailLocalLogIndex"), Remote: vU64("remoteTailRemoteLogIndex")}}
+	rTip := &commitment{height: r + 1, whoseCommit: lntypes.Remote,
+		messageIndices: lntypes.Dual[uint64]{Local: remoteTipLocalIdx, Remote: vU64("remoteTipRemoteLogIndex")}}
+	rch.addCommitment(rTail)
+	rch.addCommitment(rTip)
+
+	// the logs
+	localLog, remoteLog := newUpdateLog(vU64("localLogCounter"), 2), newUpdateLog(vU64("remoteLogCounter"), 2)
+	var lEntries, rEntries []*paymentDescriptor
+	put := func(log *updateLog, list *[]*paymentDescriptor, kind int, id uint64) {
+		pd := c02LogEntry(kind, chanID, vU64("leLogIndex"))
+		if kind == c02KAdd {
+			pd.HtlcIndex = id
+		} else if kind != c02KFee {
+			pd.ParentIndex = id
+		}
+		c02SymHeights(pd)
+		if n := len(*list); n > 0 {
+			vAssume((*list)[n-1].LogIndex < pd.LogIndex)
+		}
+		*list = append(*list, pd)
+		if kind == c02KAdd {
+			log.restoreHtlc(pd)
+		} else {
+			log.restoreUpdate(pd)
+		}
+	}
+	scenario := vChoice("scenario", scenarios)
+	switch scenario {
+	case 1:
+		put(remoteLog, &rEntries, c02KAdd, 0)
+	case 2:
+		put(remoteLog, &rEntries, c02KAdd, 0)
+		put(localLog, &lEntries, c02KSettle+vChoice("removalKind", 3), 0)
+	case 3:
+		put(remoteLog, &rEntries, c02KAdd, 0)
+		put(remoteLog, &rEntries, c02KAdd, 1)
+		put(localLog, &lEntries, c02KFail, 1)
+	case 4:
+		put(localLog, &lEntries, c02KAdd, 0)
+		put(remoteLog, &rEntries, c02KSettle, 0)
+	case 5:
+		put(localLog, &lEntries, c02KAdd, 0)
+		put(localLog, &lEntries, c02KFee, 0)
+		put(remoteLog, &rEntries, c02KAdd, 0)
+		put(remoteLog, &rEntries, c02KFail, 0)
+	case 6:
+		put(remoteLog, &rEntries, c02KFee, 0)
+		put(localLog, &lEntries, c02KFee, 0)
+	}
+
+	// reference: what becomes forwardable / must be remembered, from the
+	// pre-call state (the call mutates the entries)
+	var wantAdds, wantSettleFails, wantPeer []*paymentDescriptor
+	for _, pd := range rEntries {
+		switch {
+		case pd.EntryType == FeeUpdate:
+		case pd.EntryType == Add:
+			if pd.addCommitHeights.Remote > 0 && pd.addCommitHeights.Local > 0 &&
+				pd.addCommitHeights.Remote == r+1 && pd.addCommitHeights.Local <= l {
+				wantAdds = append(wantAdds, pd)
+			}
+		default:
+			if pd.removeCommitHeights.Remote > 0 && pd.removeCommitHeights.Local > 0 &&
+				pd.removeCommitHeights.Remote == r+1 && pd.removeCommitHeights.Local <= l {
+				wantSettleFails = append(wantSettleFails, pd)
+			}
+		}
+	}
+	for _, pd := range lEntries {
+		if pd.EntryType != Add && pd.LogIndex < remoteTipLocalIdx && pd.LogIndex >= localTailLocalIdx {
+			wantPeer = append(wantPeer, pd)
+		}
+	}
+
+	lc := &LightningChannel{
+		channelState:  st,
+		currentHeight: l,
+		commitChains:  lntypes.Dual[*commitmentChain]{Local: lch, Remote: rch},
+		updateLogs:    lntypes.Dual[*updateLog]{Local: localLog, Remote: remoteLog},
+	}
+	if vNative() {
+		lc.log = walletLog
+	}
+
+	msg := &lnwire.RevokeAndAck{ChanID: chanID, NextRevocationKey: msgPt}
+	msg.Revocation = secret
+	if mode == 2 {
+		// a different secret: differs in the last byte only, so the two
+		// values cannot be congruent modulo the field/group order
+		msg.Revocation[31] ^= vU8("secretFlip") | 1
+	}
+
+	pkg, htlcs, err := lc.ReceiveRevocation(msg)
+
+	unadvanced := lc.commitChains.Remote.tail() == rTail && lc.commitChains.Remote.tip() == rTip
+	switch mode {
+	case 1:
+		vAssert(err == c02ErrRevStore && pkg == nil, "recv: a secret the shachain store rejects is refused")
+		vAssert(store.advCalls == 0 && unadvanced, "recv: nothing is written and the remote chain stays")
+		vReach("shachain-rejects")
+		return
+	case 2:
+		vAssert(err != nil && pkg == nil, "recv: a secret that does not open the current point is refused")
+		vAssert(store.advCalls == 0 && unadvanced, "recv: nothing is written and the remote chain stays")
+		vReach("wrong-secret")
+		return
+	case 3:
+		vAssert(err == c02ErrAdvance && pkg == nil && htlcs == nil, "recv: a failed store write is reported, nothing is returned")
+		vAssert(store.advCalls == 1 && unadvanced, "recv: the in-memory remote chain is not advanced when the write failed")
+		vReach("store-failed")
+		return
+	case 4:
+		vAssert(err == chanstate.ErrNoPendingCommit && pkg == nil, "recv: without a stored pending commitment the store's error is returned")
+		vAssert(unadvanced, "recv: the remote chain stays")
+		vReach("no-pending-commit")
+		return
+	case 5:
+		vAssert(err == chanstate.ErrNoRestoredChannelMutation && pkg == nil, "recv: a restored channel is not advanced")
+		vAssert(store.advCalls == 0 && unadvanced, "recv: nothing is written and the remote chain stays")
+		vReach("restored")
+		return
+	}
+	vAssert(err == nil && pkg != nil, "recv: a correct revocation is accepted")
+	if err != nil || pkg == nil {
+		return
+	}
+	vAssert(store.advCalls == 1 && store.advPkg == pkg, "recv: the returned forwarding package is the one that was stored, once")
+	vAssert(len(revStore.added) == 1 && *revStore.added[0] == secret, "recv: the secret went into the shachain store")
+	vAssert(pkg.Height == r+1 && pkg.Source == scid && pkg.State == chanstate.FwdStateLockedIn, "recv: package is keyed by the new remote height and this channel")
+	vAssert(c02UpdsEq(pkg.Adds, wantAdds), "recv: package Adds are exactly the freshly locked-in remote Adds")
+	vAssert(c02UpdsEq(pkg.SettleFails, wantSettleFails), "recv: package SettleFails are exactly the freshly locked-in remote removals")
+	vAssert(pkg.FwdFilter != nil && pkg.AckFilter != nil && pkg.SettleFailFilter != nil &&
+		int(pkg.FwdFilter.Count()) == len(wantAdds) && int(pkg.AckFilter.Count()) == len(wantAdds) &&
+		int(pkg.SettleFailFilter.Count()) == len(wantSettleFails), "recv: filters sized for the package")
+	for i, pd := range wantAdds {
+		vAssert(pd.SourceRef != nil && pd.SourceRef.Height == r+1 && int(pd.SourceRef.Index) == i, "recv: SourceRef of a forwarded Add")
+	}
+	for i, pd := range wantSettleFails {
+		vAssert(pd.DestRef != nil && pd.DestRef.Source == scid && pd.DestRef.Height == r+1 && int(pd.DestRef.Index) == i,
+			"recv: DestRef of a forwarded removal")
+	}
+	vAssert(c02UpdsEq(store.advUpdates, wantPeer), "recv: our removals the peer has signed for but we have not are stored")
+	vAssert(lc.commitChains.Remote.tail() == rTip && !lc.commitChains.Remote.hasUnackedCommitment(), "recv: the remote chain advanced to the new tail")
+	vAssert(st.RemoteCurrentRevocation == nextPt && st.RemoteNextRevocation == msgPt, "recv: revocation points rotated")
+	vAssert(len(htlcs) == 1 && htlcs[0].HtlcIndex == store.newRemote.Htlcs[0].HtlcIndex && htlcs[0].Amt == store.newRemote.Htlcs[0].Amt,
+		"recv: returns the HTLCs of the promoted remote commitment")
+	vReach("accepted")
+	if len(wantAdds) == 2 {
+		vReach("accepted-two-adds")
+	}
+	if len(wantSettleFails) == 1 {
+		vReach("accepted-settlefail")
+	}
+	if len(wantPeer) >= 1 {
+		vReach("accepted-peer-updates")
+	}
+}
+
+func VerifC02RecvRevocation() { c02Recv(7) }
